@@ -284,7 +284,7 @@ class H5DataV3(DataSet):
         time_deltas = np.diff(self._timestamps)
         # Assume that a large decrease in timestamp is due to wrapping of ADC sample counter
         time_wraps = np.nonzero(time_deltas < -adc_wrap_period / 2.)[0]
-        if time_wraps:
+        if len(time_wraps):
             time_deltas[time_wraps] += adc_wrap_period
             self._timestamps = np.cumsum(np.r_[self._timestamps[0], time_deltas])
             for wrap in time_wraps:
